@@ -165,7 +165,10 @@ def cycles_domain(sig, fs, f_range, center, fek, other_filter_kwargs=()):
         except Exception:
             pass
     info['longest_filter'] = longest
-    ok = len(p) >= 4 and len(t) >= 4 and info['finite'] and len(s) > longest
+    # "at least three full oscillations" is a statement about the band-passed signal (before the boundary is applied); after the
+    # boundary at least one complete cycle (side extremum, centre, side extremum) must remain for a table to exist
+    nb = info.get('n_half_waves') or (0, 0)
+    ok = min(nb) >= 4 and len(p) >= 2 and len(t) >= 2 and info['finite'] and len(s) > longest
     if not ok:
         info['why'] = 'fewer-than-3-oscillations' if len(s) > longest else 'signal-not-longer-than-a-filter'
     return ok, p, t, info
